@@ -3,12 +3,15 @@ which of several equivalent spellings the source uses.  All are classical compil
 nothing is evaluated:
 
   unroll_static_loops   `for T in <literal tuple/list>` (or a local bound to one just before) -> the body once per element, the
-                        loop targets replaced by the element's expressions
+                        loop targets replaced by the element's expressions;  a table scan `for T in <literal>: if C: S; break`
+                        [`else: E`] -> the if/elif chain over the rows [with `else: E`]
   inline_local_defs     a nested `def h(p): return e` / `h = lambda p: e` (or a nested def with straight-line statements and one
                         trailing return) used in the same function -> its body at the call site
   inline_stmt_calls     a call that is a whole statement (`h(a)`, `x = h(a)`, `x[i] = h(a)`, `x += h(a)`, `return h(a)`) to a helper
                         with straight-line control flow at its top level and at most one trailing return -> the helper's
                         statements with parameters renamed to the arguments and locals made unique
+
+  const_getattr         `getattr(x, "name")` -> `x.name`
 
 A transformation that cannot be applied safely (re-assigned names, break/continue, *args, generators, early returns) leaves the
 code as it is; the rules then see the original spelling."""
@@ -123,16 +126,22 @@ def _top_level_jumps(stmts) -> bool:
 # --------------------------------------------------------------------------------------------------------- static loop unrolling
 
 def _literal_seq(node):
-    if isinstance(node, (ast.Tuple, ast.List)) and 1 <= len(node.elts) <= 8 and not any(isinstance(e, ast.Starred) for e in node.elts):
+    if isinstance(node, (ast.Tuple, ast.List)) and 1 <= len(node.elts) <= 24 and not any(isinstance(e, ast.Starred) for e in node.elts):
         return node
     return None
 
 
-def _pure(e) -> bool:
-    """an expression that can be copied to several places: no calls except on literals/names methods are avoided altogether"""
-    for n in ast.walk(e):
+def _pure(e, lambdas: bool = False) -> bool:
+    """an expression that can be copied to several places: no calls except on literals/names methods are avoided altogether.
+    lambdas=True: a `lambda` EXPRESSION counts as pure (evaluating it runs nothing; its body is not looked into)"""
+    todo = [e]
+    while todo:
+        n = todo.pop()
+        if lambdas and isinstance(n, ast.Lambda):
+            continue
         if isinstance(n, (ast.Call, ast.Await, ast.Yield, ast.YieldFrom, ast.NamedExpr, ast.Lambda, ast.ListComp, ast.SetComp, ast.DictComp, ast.GeneratorExp)):
             return False
+        todo.extend(ast.iter_child_nodes(n))
     return True
 
 
@@ -156,11 +165,50 @@ def _unroll_one(loop: ast.For, seq):
             if not isinstance(e, (ast.Tuple, ast.List)) or len(e.elts) != len(names) or any(isinstance(x, ast.Starred) for x in e.elts):
                 return None
             m = dict(zip(names, e.elts))
-        if not all(_pure(v) for v in m.values()):
+        if not all(_pure(v, lambdas=True) for v in m.values()):
             return None
         for st in loop.body:
             out.append(_Subst(dict(m)).visit(copy.deepcopy(st)))
     return out
+
+
+def _scan_chain(loop: ast.For, seq):
+    """table scan  `for T in <literal>: if C(T): S(T); break` [`else: E`]  ->  `if C(e1): S(e1) elif C(e2): S(e2) ... [else: E]`
+    (the first matching row wins in both spellings; E runs when no row matched)"""
+    if len(loop.body) != 1 or not isinstance(loop.body[0], ast.If) or loop.body[0].orelse:
+        return None
+    inner = loop.body[0]
+    if not inner.body or not isinstance(inner.body[-1], ast.Break):
+        return None
+    rest = inner.body[:-1]
+    if _top_level_jumps(rest):
+        return None
+    tg = loop.target
+    if isinstance(tg, ast.Name):
+        names = [tg.id]
+    elif isinstance(tg, (ast.Tuple, ast.List)) and all(isinstance(e, ast.Name) for e in tg.elts):
+        names = [e.id for e in tg.elts]
+    else:
+        return None
+    if set(names) & _stored(loop.body):
+        return None
+    # the loop variables must not be read after the loop (they would keep the matching row's values)
+    chain = list(loop.orelse)
+    for e in reversed(seq.elts):
+        if isinstance(tg, ast.Name):
+            m = {tg.id: e}
+        else:
+            if not isinstance(e, (ast.Tuple, ast.List)) or len(e.elts) != len(names) or any(isinstance(x, ast.Starred) for x in e.elts):
+                return None
+            m = dict(zip(names, e.elts))
+        if not all(_pure(v) for v in m.values()):
+            return None
+        test = _Subst(dict(m)).visit(copy.deepcopy(inner.test))
+        body = [_Subst(dict(m)).visit(copy.deepcopy(st)) for st in rest] or [ast.Pass()]
+        node = ast.If(test=test, body=body, orelse=chain)
+        ast.copy_location(node, inner)
+        chain = [node]
+    return chain
 
 
 def _unroll_block(stmts, lits):
@@ -174,7 +222,11 @@ def _unroll_block(stmts, lits):
                 body_st = _stored(st.body)
                 free = set().union(*[_loaded(e) for e in seq.elts]) if seq.elts else set()
                 if not (free & body_st) and not (isinstance(st.iter, ast.Name) and st.iter.id in body_st):
-                    un = _unroll_one(st, seq)
+                    after = stmts[stmts.index(st) + 1:]
+                    tnames = {n.id for n in ast.walk(st.target) if isinstance(n, ast.Name)}
+                    un = _scan_chain(st, seq) if not (tnames & set().union(*[_loaded(a) for a in after], set())) else None
+                    if un is None:
+                        un = _unroll_one(st, seq)
                     if un is not None:
                         un = _unroll_block(un, lits)
                         for u in un:
@@ -197,14 +249,51 @@ def _unroll_block(stmts, lits):
                 del lits[k]
         if isinstance(st, ast.Assign) and len(st.targets) == 1 and isinstance(st.targets[0], ast.Name):
             seq = _literal_seq(st.value)
-            if seq is not None and all(_pure(e) for e in seq.elts) and st.targets[0].id not in set().union(*[_loaded(e) for e in seq.elts]):
+            if seq is not None and all(_pure(e, lambdas=True) for e in seq.elts) and st.targets[0].id not in set().union(*[_loaded(e) for e in seq.elts]):
                 lits[st.targets[0].id] = seq
         out.append(st)
     return out
 
 
-def unroll_static_loops(func):
-    func.body = _unroll_block(func.body, {})
+def module_tables(mod: ast.Module) -> dict:
+    """name -> literal tuple/list bound exactly once at module level, never re-bound (`global`) or mutated anywhere in the
+    module, whose elements are pure: usable like a local literal by unroll_static_loops"""
+    cand, count = {}, {}
+    for st in mod.body:
+        for n in ast.walk(st) if not isinstance(st, (ast.FunctionDef, ast.AsyncFunctionDef, ast.ClassDef)) else []:
+            if isinstance(n, ast.Name) and isinstance(n.ctx, (ast.Store, ast.Del)):
+                count[n.id] = count.get(n.id, 0) + 1
+        if isinstance(st, ast.Assign) and len(st.targets) == 1 and isinstance(st.targets[0], ast.Name):
+            seq = _literal_seq(st.value)
+            if seq is not None and all(_pure(e) for e in seq.elts):
+                cand[st.targets[0].id] = seq
+    if not cand:
+        return {}
+    bad = set()
+    for n in ast.walk(mod):
+        if isinstance(n, (ast.Global, ast.Nonlocal)):
+            bad |= set(n.names)
+        elif isinstance(n, ast.Call) and isinstance(n.func, ast.Attribute) and isinstance(n.func.value, ast.Name) and n.func.attr in MUTATORS:
+            bad.add(n.func.value.id)
+        elif isinstance(n, (ast.Assign, ast.AugAssign, ast.Delete)):
+            for t in (n.targets if isinstance(n, (ast.Assign, ast.Delete)) else [n.target]):
+                if isinstance(t, ast.Subscript) and isinstance(t.value, ast.Name):
+                    bad.add(t.value.id)
+                if isinstance(n, ast.AugAssign) and isinstance(t, ast.Name):
+                    bad.add(t.id)
+    return {k: v for k, v in cand.items() if count.get(k, 0) == 1 and k not in bad
+            and not (set().union(*[_loaded(e) for e in v.elts]) & set(cand))}
+
+
+def unroll_static_loops(func, tables: dict | None = None):
+    lits = {}
+    if tables:
+        # a module-level table is visible unless the function binds the name itself (parameter, local, nested def)
+        a = func.args
+        own = {p.arg for p in a.posonlyargs + a.args + a.kwonlyargs} | ({a.vararg.arg} if a.vararg else set()) | ({a.kwarg.arg} if a.kwarg else set()) \
+            | _stored(func.body)
+        lits = {k: v for k, v in tables.items() if k not in own and not (set().union(*[_loaded(e) for e in v.elts]) & own)}
+    func.body = _unroll_block(func.body, lits)
     return func
 
 
@@ -381,10 +470,64 @@ def inline_stmt_calls(func, resolve, max_depth: int = 3):
                                 ast.fix_missing_locations(b)
                             out.extend(expand(new, depth + 1))
                             continue
+            # a straight-line helper called INSIDE the statement's expression (`return f(g(a))`, `x = "(" + g(a) + ")"`): its
+            # statements are hoisted in front of the statement and the call is replaced by the returned expression, provided
+            # nothing with a possible effect is evaluated before the call in that expression
+            v = value_of(st)
+            if v is not None and depth < max_depth and not isinstance(st, ast.AugAssign):
+                hit = _first_nested_call(v, lambda c_: (lambda r_: r_ is not None and r_[0] is not func and _simple_callee(r_[0]) == "stmts")(resolve(c_)))
+                if hit is not None:
+                    callee, recv = resolve(hit)
+                    res = inline_stmts(callee, hit, recv)
+                    if res is not None and res[1] is not None:
+                        body, ret = res
+                        st.value = _ReplaceNode(hit, ret).visit(v)
+                        new = list(body) + [st]
+                        for b in new:
+                            ast.copy_location(b, st) if not hasattr(b, "lineno") else None
+                            ast.fix_missing_locations(b)
+                        out.extend(expand(new, depth + 1))
+                        continue
             out.append(st)
         return out
     func.body = expand(func.body, 0)
     return func
+
+
+class _ReplaceNode(ast.NodeTransformer):
+    def __init__(self, old, new):
+        self.old, self.new = old, new
+
+    def visit(self, n):
+        if n is self.old:
+            return self.new
+        return self.generic_visit(n)
+
+
+def _first_nested_call(expr, wanted):
+    """the first call (in evaluation order) inside `expr` for which wanted(call) holds, reached only through operands that are
+    always evaluated (call arguments, operators, attribute/subscript bases, displays, f-string fields) and with nothing but
+    pure sub-expressions evaluated before it; None otherwise"""
+    def rec(n):
+        """-> (hit | None, pure_so_far)"""
+        if isinstance(n, ast.Call) and wanted(n) and n is not expr:
+            if all(_pure(a) for a in n.args) and all(_pure(k.value) for k in n.keywords) and _pure(n.func):
+                return n, True
+            return None, False
+        if isinstance(n, (ast.Call, ast.BinOp, ast.UnaryOp, ast.Attribute, ast.Subscript, ast.Tuple, ast.List, ast.Set, ast.JoinedStr, ast.FormattedValue,
+                          ast.Starred, ast.keyword, ast.Compare, ast.Slice, ast.Index if hasattr(ast, "Index") else ast.Slice)):
+            for ch in ast.iter_child_nodes(n):
+                if isinstance(ch, (ast.expr_context, ast.operator, ast.unaryop, ast.cmpop)):
+                    continue
+                h, pure = rec(ch)
+                if h is not None:
+                    return h, True
+                if not pure:
+                    return None, False
+            # the node itself: a call evaluated after its operands has an effect for whatever follows
+            return None, not isinstance(n, ast.Call)
+        return None, _pure(n)
+    return rec(expr)[0]
 
 
 class _ExprInliner(ast.NodeTransformer):
@@ -505,11 +648,166 @@ def inline_local_defs(func):
     return func
 
 
-def normalize_function(func):
-    """the local normalisations (no knowledge of other functions needed)"""
+# ------------------------------------------------------------------------------------------ extracted helpers, whole function
+
+def _helper_calls(node, resolve, owner):
+    """calls inside `node` to helpers that inline_stmt_calls could expand (statement helpers: loops, several statements)"""
+    out = []
+    for n in ast.walk(node):
+        if isinstance(n, ast.Call):
+            r = resolve(n)
+            if r is not None and r[0] is not owner and _simple_callee(r[0]) == "stmts":
+                out.append(n)
+    return out
+
+
+def _unfold_comprehension(st, resolve, owner):
+    """`X = [E for .. in .. if ..]` whose element calls a statement helper -> `X = []` + the loop nest appending E (the inverse of
+    core._Canon's append-loop folding): the helper call becomes a statement that can be expanded in place"""
+    if not (isinstance(st, ast.Assign) and len(st.targets) == 1 and isinstance(st.targets[0], ast.Name) and isinstance(st.value, ast.ListComp)):
+        return None
+    comp = st.value
+    if not _helper_calls(comp.elt, resolve, owner) or any(g.is_async for g in comp.generators):
+        return None
+    x = st.targets[0].id
+    if x in _loaded(comp):
+        return None
+    inner = ast.Expr(value=ast.Call(func=ast.Attribute(value=ast.Name(id=x, ctx=ast.Load()), attr="append", ctx=ast.Load()), args=[comp.elt], keywords=[]))
+    body = [inner]
+    for g in reversed(comp.generators):
+        for c in reversed(g.ifs):
+            body = [ast.If(test=c, body=body, orelse=[])]
+        body = [ast.For(target=g.target, iter=g.iter, body=body, orelse=[], type_comment=None)]
+    init = ast.Assign(targets=[ast.Name(id=x, ctx=ast.Store())], value=ast.List(elts=[], ctx=ast.Load()))
+    out = [init] + body
+    for b in out:
+        ast.copy_location(b, st)
+        ast.fix_missing_locations(b)
+    return out
+
+
+def _hoist_helper_arg(st, resolve, owner):
+    """`X.append(h(a))` / `f(h(a))` / `x = g(h(a))` with h a statement helper -> `_t = h(a)` + the statement using `_t`; only when
+    everything evaluated before the helper call is a plain name / constant (evaluation order is kept)"""
+    if not isinstance(st, (ast.Expr, ast.Assign, ast.AugAssign, ast.Return)) or not isinstance(st.value, ast.Call):
+        return None
+    outer = st.value
+    if resolve(outer) is not None and _simple_callee(resolve(outer)[0]) is not None:
+        return None                       # the statement's own call is a helper: expanded as it is
+    f = outer.func
+    if not (isinstance(f, ast.Name) or (isinstance(f, ast.Attribute) and isinstance(f.value, ast.Name))):
+        return None
+    for i, a in enumerate(outer.args):
+        if isinstance(a, ast.Call) and a in _helper_calls(a, resolve, owner)[:1]:
+            if not all(_pure(p) for p in outer.args[:i]):
+                return None
+            t = f"_arg{next(_counter)}"
+            pre = ast.Assign(targets=[ast.Name(id=t, ctx=ast.Store())], value=a)
+            outer.args[i] = ast.Name(id=t, ctx=ast.Load())
+            ast.copy_location(pre, st)
+            ast.fix_missing_locations(pre)
+            ast.fix_missing_locations(st)
+            return [pre, st]
+        if not _pure(a):
+            return None
+    return None
+
+
+def expand_helpers(func, resolve):
+    """A function with the helpers it was split into put back (in place; hand in a copy).  resolve(call) -> (callee FunctionDef,
+    receiver expr | None) | None decides which calls are helpers (pymodel.Package.expanded: methods of the same class reached
+    through self/cls, functions of the same module).  Statement helpers are expanded where a call is a whole statement, after
+    comprehensions / call arguments that contain such a call were turned into statements; one-expression helpers are replaced
+    wherever they are called.  Anything that cannot be expanded safely stays a call."""
+    def prepare(stmts):
+        out = []
+        for st in stmts:
+            for fld in ("body", "orelse", "finalbody"):
+                b = getattr(st, fld, None)
+                if isinstance(b, list) and b and isinstance(b[0], ast.stmt) and not isinstance(st, (ast.FunctionDef, ast.ClassDef, ast.AsyncFunctionDef)):
+                    setattr(st, fld, prepare(b))
+            un = _unfold_comprehension(st, resolve, func)
+            if un is not None:
+                out.extend(prepare(un))
+                continue
+            ho = _hoist_helper_arg(st, resolve, func)
+            if ho is not None:
+                out.extend(ho)
+                continue
+            out.append(st)
+        return out
+    func.body = prepare(func.body)
+    inline_stmt_calls(func, resolve)
+    func.body = [_ExprInliner(resolve, func).visit(st) for st in func.body]
+    ast.fix_missing_locations(func)
+    return func
+
+
+class _CallLambda(ast.NodeTransformer):
+    """`(lambda: e)()` -> e   (a parameterless lambda called on the spot, e.g. after a table of closures was unrolled)"""
+
+    def visit_Call(self, n):
+        self.generic_visit(n)
+        f = n.func
+        if isinstance(f, ast.Lambda) and not n.args and not n.keywords and not (f.args.args or f.args.posonlyargs or f.args.kwonlyargs or f.args.vararg or f.args.kwarg):
+            return ast.copy_location(f.body, n)
+        return n
+
+
+def _drop_dead_tables(func):
+    """`name = <literal tuple/list of pure elements>` whose name is never read (any more, after its loop was unrolled): the
+    binding has no effect, and its elements (e.g. references to local helpers) would otherwise count as uses"""
+    read = {n.id for n in ast.walk(func) if isinstance(n, ast.Name) and isinstance(n.ctx, (ast.Load, ast.Del))}
+    if any(isinstance(n, ast.Name) and n.id in ("locals", "vars", "eval", "exec") for n in ast.walk(func)):
+        return func
+
+    def prune(stmts):
+        out = []
+        for st in stmts:
+            if isinstance(st, ast.Assign) and len(st.targets) == 1 and isinstance(st.targets[0], ast.Name) and st.targets[0].id not in read:
+                seq = _literal_seq(st.value)
+                if seq is not None and all(_pure(e, lambdas=True) for e in seq.elts):
+                    continue
+            if not isinstance(st, (ast.FunctionDef, ast.ClassDef, ast.AsyncFunctionDef)):
+                for fld in ("body", "orelse", "finalbody"):
+                    b = getattr(st, fld, None)
+                    if isinstance(b, list) and b and isinstance(b[0], ast.stmt):
+                        nb = prune(b)
+                        setattr(st, fld, nb if nb or fld != "body" else [ast.copy_location(ast.Pass(), st)])
+            out.append(st)
+        return out
+    func.body = prune(func.body) or [ast.Pass()]
+    return func
+
+
+class _ConstGetattr(ast.NodeTransformer):
+    """`getattr(x, "name")` (two arguments, literal identifier) is the attribute access `x.name`"""
+
+    def visit_Call(self, n):
+        self.generic_visit(n)
+        if isinstance(n.func, ast.Name) and n.func.id == "getattr" and len(n.args) == 2 and not n.keywords \
+                and isinstance(n.args[1], ast.Constant) and isinstance(n.args[1].value, str) and n.args[1].value.isidentifier():
+            return ast.copy_location(ast.Attribute(value=n.args[0], attr=n.args[1].value, ctx=ast.Load()), n)
+        return n
+
+
+def const_getattr(node):
+    return ast.fix_missing_locations(_ConstGetattr().visit(node))
+
+
+def normalize_function(func, tables: dict | None = None):
+    """the local normalisations (no knowledge of other functions needed); `tables`: module-level literal tables (module_tables)"""
     try:
         inline_local_defs(func)
-        unroll_static_loops(func)
+        before = len(list(ast.walk(func)))
+        unroll_static_loops(func, tables)
+        const_getattr(func)          # after unrolling: the name may come from a row of the unrolled table
+        if len(list(ast.walk(func))) != before:
+            # unrolling a table of closures / helper references turns them into direct calls: a second round inlines those
+            _drop_dead_tables(func)
+            func.body = [_CallLambda().visit(st) for st in func.body]
+            inline_local_defs(func)
+            ast.fix_missing_locations(func)
     except RecursionError:
         pass
     return func
